@@ -8,7 +8,7 @@ TECHNIQUE = ("deductive, value-universal/shape-bounded: the traced rotate_orbs i
              " Plus all-sizes obligations (kind proof): tensor normal forms with SYMBOLIC sizes of the same traced functions (engine B-T, DESIGN 2.3b).")
 EXPLANATION = ("all-sizes (proof): rot.congruence.allsizes.{chol,h1} - rotate_orbs is the congruence C^T X C for ALL norb and nchol (tensor normal form with symbolic sizes, DESIGN 2.3b). rot.congruence: for symbolic h1 (both spins independent), symbolic Cholesky vectors and a GENERAL symbolic matrix C, rotate_orbs returns C^T h1[s] C for each spin and "
                "C^T L_g C for each g (norb 2..4). rot.inv: with an exact rational orthogonal C, rotating the Hamiltonian with rotate_orbs and the trial orbitals and walkers with C^T "
-               "leaves local energy and force bias unchanged and the overlap unchanged (factor 1), for rhf/uhf/noci, and for ucisd under the rotations that keep its trial representable (C = R_occ (+) R_virt, alpha amplitude indices transformed, beta orbitals rotated); for the other kinds it is the corollary of C02/C03 (the spec is "
+               "leaves local energy and force bias unchanged and the overlap unchanged (factor 1), for rhf/uhf/noci, and for ucisd / cisd under the rotations that keep the trial representable (C = R_occ (+) R_virt, alpha amplitude indices transformed, beta orbitals rotated); for the other kinds it is the corollary of C02/C03 (the spec is "
                "basis independent) with rot.congruence. Shape-bounded => 'other'.")
 LEVEL_TEXT = EXPLANATION
 LEVEL_NOTE = "The congruence is decided at norb <= 4 (thorough), all values; orthogonal matrices in rot.inv are exact products of Pythagorean Givens rotations."
@@ -26,5 +26,8 @@ def tasks(tier):
             t.append((M, "rot_invariance", dict(kind=k, norb=n, nu=a, nd=b, what=w)))
     for w in ("overlap", "energy", "fb"):       # ucisd: block rotations R_occ (+) R_virt with the alpha amplitude indices transformed
         t.append((M, "rot_invariance_ucisd", dict(norb=3, nu=2, nd=1, what=w)))
+        t.append((M, "rot_invariance_ucisd", dict(norb=3, nu=1, nd=1, what=w, kind="cisd")))
+        if w != "energy" or tier == "thorough":
+            t.append((M, "rot_invariance_ucisd", dict(norb=4, nu=2, nd=2, what=w, kind="cisd")))
     t.append((M, "canary", {}))
     return t
